@@ -251,13 +251,13 @@ func NewDateRangeWithNow() DateRange {
 	return NewDateRange(start, end)
 }
 
-func (date Date) safeParse(s string) time.Time {
+func (date Date) safeParse(s string) (time.Time, bool) {
 	d, err := time.Parse("_2 1 2006", s)
 	if err != nil {
-		return time.Time{}
+		return time.Time{}, false
 	}
 
-	return d
+	return d, true
 }
 
 // Time returns the minimum or maximum (depending on IsEndOfRange)
@@ -283,11 +283,13 @@ func (date Date) Time() time.Time {
 		// represent the start of the year 0.
 	}
 
-	result := date.safeParse(d)
+	result, ok := date.safeParse(d)
 
 	// If the safeParse could not parse the date it will return a zero date.
-	// Make sure we don't try to adjust the zero date.
-	if date.IsEndOfRange && !result.IsZero() {
+	// Make sure we don't try to adjust the zero date. We cannot use IsZero() to
+	// detect that because 1 Jan 0001 is a valid date that is also the zero
+	// value of time.Time.
+	if date.IsEndOfRange && ok {
 		switch {
 		case date.Day != 0:
 			result = result.AddDate(0, 0, 1)
